@@ -62,7 +62,13 @@ pub fn run_hist_runs(report: &mut Report, property: &str, runs: &[(HistCfg, Caps
         );
         record(report, &cfg.label, &o);
     }
-    report.cov("bounds", serde_json::Value::from(descr));
+    let prev = report.coverage.remove("bounds");
+    let mut all = match prev {
+        Some(serde_json::Value::Array(a)) => a,
+        _ => Vec::new(),
+    };
+    all.extend(descr);
+    report.cov("bounds", serde_json::Value::from(all));
 }
 
 /// Replay of artefacts produced by engines other than the history explorer.
